@@ -1,13 +1,15 @@
 // .aelys.toml manifest parsing
 
 use serde::{Deserialize, Serialize};
-use std::collections::HashMap;
+use std::collections::BTreeMap;
 use std::path::Path;
 
 #[derive(Debug, Clone, Deserialize, Serialize, Default)]
 pub struct Manifest {
+    // ordered: the manifest is serialized into .avbc files, which must not depend on
+    // the iteration order of a hash map
     #[serde(default)]
-    pub module: HashMap<String, ModulePolicy>,
+    pub module: BTreeMap<String, ModulePolicy>,
     #[serde(default)]
     pub build: BuildPolicy,
 }
